@@ -215,12 +215,16 @@ def inline_table(model, rel, cls=None, exclude=()):
     return inline
 
 
-def method_paths(model, ref, fold=None, max_paths=1024, depth=3, decide=None):
-    """path summary of the function `rel::Qual.name` with same-module helpers and same-class methods expanded"""
+def method_paths(model, ref, fold=None, max_paths=1024, depth=3, decide=None, inline=True):
+    """path summary of the function `rel::Qual.name` with same-module helpers and same-class methods expanded
+    (inline=False: no expansion; or a table as produced by inline_table)"""
     rel, qual = ref.split("::")
     fn = model.func(ref)
     cls = qual.rsplit(".", 1)[0] if "." in qual else None
-    inline = inline_table(model, rel, cls, exclude=(fn.name,))
+    if inline is True:
+        inline = inline_table(model, rel, cls, exclude=(fn.name,))
+    elif inline is False:
+        inline = None
     body = [b for b in fn.body if not (isinstance(b, ast.Expr) and isinstance(b.value, ast.Constant))]
     return fn, run_paths(body, inline=inline, fold=fold, max_paths=max_paths, depth=depth, decide=decide)
 
